@@ -88,7 +88,9 @@ def run(ctx):
     def store_buf(n, pred):
         return n.kind == "stmt" and isinstance(n.ast, ast.Assign) and attr_chain(n.ast.targets[0]) == ["self", "_bufferedCharacter"] \
             and pred(n.ast.value)
-    withhold = [n for n in cfg.stmt_nodes() if store_buf(n, lambda v: norm(v) == "%s[-1]" % var)]
+    last_aliases = {a.targets[0].id for a in ast.walk(f.node) if isinstance(a, ast.Assign) and len(a.targets) == 1 and isinstance(a.targets[0], ast.Name)
+                    and norm(a.value) == "%s[-1]" % var}
+    withhold = [n for n in cfg.stmt_nodes() if store_buf(n, lambda v: norm(v) == "%s[-1]" % var or (isinstance(v, ast.Name) and v.id in last_aliases))]
     clear = [n for n in cfg.stmt_nodes() if store_buf(n, lambda v: isinstance(v, ast.Constant) and v.value is None)]
     trunc = lambda n: n.kind == "stmt" and isinstance(n.ast, ast.Assign) and norm(n.ast.targets[0]) == var and \
         norm(n.ast.value) == "%s[:-1]" % var  # noqa: E731
@@ -113,9 +115,17 @@ def run(ctx):
     if len(reads) != 1:
         raise AnalysisError("readChunk: the read of dataStream was not found")
 
+    def _is_last_char_text(t):
+        return ("13" in t or "0x0D" in t or "'\\r'" in t) and ("lastv" in t or "%s[-1]" % var in t or t.startswith("%s == " % var))
+    # named booleans: `endsWithCR = lastv == 0x0D` ... `if endsWithCR or ..:`
+    test_aliases = {a.targets[0].id for a in ast.walk(f.node) if isinstance(a, ast.Assign) and len(a.targets) == 1 and isinstance(a.targets[0], ast.Name)
+                    and isinstance(a.value, (ast.Compare, ast.BoolOp)) and _is_last_char_text(norm(a.value))}
+
     def last_char_test(n):
         if n.kind != "test":
             return False
+        if any(isinstance(x, ast.Name) and x.id in test_aliases for x in ast.walk(n.ast)):
+            return True
         t = norm(n.ast)
         # `lastv == 0x0D` / `data[-1] == '\r'`, or -- for a one-character read -- `data == '\r'`
         return ("13" in t or "0x0D" in t or "'\\r'" in t) and ("lastv" in t or "%s[-1]" % var in t or t.startswith("%s == " % var))
